@@ -439,8 +439,10 @@ namespace rpc
             if (x.size() == 0)
                 return;
             x._ptr = _iov->extract_front_continuous(x.size());
-            if (!x._ptr)
+            if (!x._ptr) {
                 failed = true;
+                x._len = 0;     // nothing was delivered: nobody may walk it
+            }
         }
 
         void process_field(iovec_array& x)
